@@ -68,6 +68,19 @@ theorem c20_smaller_first (specs : List Spec) (i j : Nat) (hi : i < (load specs)
     · have := List.pairwise_iff_getElem.mp (c20_loaded specs).2.1 j i hj hi h
       rw [this] at hlt; exact Bool.noConfusion hlt
 
+/-- **the identity of a plugin is its configured ENTRY, not its name**: every configured entry that is loadable is
+    loaded exactly as many times as it is configured — also two entries that are equal in everything the model sees
+    (the same dotted name listed twice; two classes with the same class name and `Plugin.name` from different
+    modules) — and an entry that is not loadable is not loaded at all.  Nothing is de-duplicated. -/
+theorem c20_loaded_multiplicity (specs : List Spec) (s : Spec) :
+    (load specs).count s = if s.loadable then specs.count s else 0 := by
+  rw [(c20_loaded specs).1.count_eq]
+  cases h : s.loadable with
+  | true => simp [List.count_filter h]
+  | false =>
+    simp only [Bool.false_eq_true, if_false]
+    exact List.count_eq_zero.mpr (fun hm => by simp [List.mem_filter, h] at hm)
+
 /-- a plugin is loaded iff it is configured and loadable: missing dependencies, `PLUGIN_<NAME>=False` and a
     raising constructor each skip exactly that plugin. -/
 theorem c20_loaded_iff (specs : List Spec) (s : Spec) :
@@ -252,6 +265,9 @@ example :
            spn 8 (-25) 2, spn 9 10 1]).map Spec.id
       = [5, 8, 0, 7, 6, 9, 2, 1, 3, 4] := by
   decide
+
+/-- the same entry three times (twice usable, as configured; equal in name and everything else): all copies are loaded -/
+example : ((load [spn 1 5 0, spn 2 0 0, spn 1 5 0, spn 1 5 0]).map Spec.id) = [2, 1, 1, 1] := by decide
 
 /-- a loop without the per-plugin `try` is not isolated (what the metric loop looked like before it was guarded) -/
 example : IsoLoopIn RaiseSet.onlyExc "ps" (.loop "ps" (.call "p.counter")) = false := by decide
